@@ -104,6 +104,7 @@ struct Context {
 // everything a source can change while it is being built; restored if the build fails
 struct BuildMark {
     input_len: usize,
+    sources_len: usize,
     nested_len: usize,
     ctx: Context,
     fs_len: usize,
@@ -397,6 +398,7 @@ impl State {
     fn build_mark(&self) -> BuildMark {
         BuildMark {
             input_len: self.input.len(),
+            sources_len: self.sources.len(),
             nested_len: self.nested.len(),
             ctx: self.ctx.clone(),
             fs_len: self.flow_stack.len(),
@@ -417,6 +419,9 @@ impl State {
     // so later sources behave as if it had never been submitted.
     fn build_unwind(&mut self, m: BuildMark) {
         self.input.truncate(m.input_len);
+        // the rejected text and the files it pulled in are no longer "included": a later
+        // `require` of one of them has to load it again (its definitions are gone)
+        self.sources.truncate(m.sources_len);
         self.nested.truncate(m.nested_len);
         self.ctx = m.ctx;
         self.flow_stack.truncate(m.fs_len);
